@@ -273,7 +273,7 @@ pub fn run(toks: &[&str]) -> String {
 
     let rt = tokio::runtime::Builder::new_current_thread().enable_all().start_paused(true).build().unwrap();
     rt.block_on(async move {
-        let (c, s) = tokio::io::duplex(1 << 16);
+        let (c, s) = tokio::io::duplex(std::env::var("HDV_BUF").ok().and_then(|v| v.parse().ok()).unwrap_or(1 << 16));
         let raw = Arc::new(Mutex::new(Vec::new()));
         let peer_task = tokio::spawn(peer(kind.to_string(), alpns.to_string(), Tap { io: s, raw: raw.clone() }));
         let mut transport = TlsTransport::new(OneIo(Some(c)));
